@@ -55,6 +55,9 @@ def soft_label(idx, n_classes):
     return v if n_classes > 1 else torch.ones(1)
 
 
+XDTYPE = [None]  # None: float32 samples; "uint8" / "int64" / "bool": raw integer samples (images before conversion, token ids)
+
+
 def make_dataset(n, n_classes, shapes, soft=False, stored=False):
     """stored=True: an in-memory dataset - the same tensor objects are handed out on every request"""
     import torch
@@ -96,6 +99,10 @@ def _make_dataset(n, n_classes, shapes, soft=False):
             numel = 1
             for s in shp:
                 numel *= s
+            if XDTYPE[0] == "uint8":
+                return ((torch.arange(numel) % 11) + 1 + 37 * idx).view(*shp).to(torch.uint8)
+            if XDTYPE[0] == "int64":
+                return ((torch.arange(numel) + 1) * (7 ** (idx + 1))).view(*shp)
             return (torch.arange(numel, dtype=torch.float32).view(*shp) + 1.0) * (7.0 ** (idx + 1))
 
         def getitem_class(self, idx, ctx=None):
@@ -122,7 +129,8 @@ def padcut(x2, shape):
 def explain(ds, i, x_out, y_out, n_classes, unify):
     """All (j, w) explaining (x_out, y_out) as a convex combination; 'untouched' if equal to sample i itself."""
     import torch
-    xi = ds.getitem_x(i)
+    xi = ds.getitem_x(i).float()
+    x_out = x_out.float()  # an untouched integer sample comes back in its own dtype
     ci = ds.getitem_class(i)
     if tuple(x_out.shape) != tuple(xi.shape):
         return None, f"output shape {tuple(x_out.shape)} != shape of sample i {tuple(xi.shape)}"
@@ -141,7 +149,7 @@ def explain(ds, i, x_out, y_out, n_classes, unify):
     if torch.allclose(x_out, xi, rtol=0, atol=TOL * float(xi.abs().max())) and torch.allclose(y_out, ei, atol=TOL):
         sols.append(("untouched", None, 1.0))
     for j in range(len(ds)):
-        xj = ds.getitem_x(j)
+        xj = ds.getitem_x(j).float()
         if tuple(xj.shape) != tuple(xi.shape):
             if not unify:
                 continue
@@ -330,12 +338,21 @@ def task(args):
                     except Exception as e:
                         return f"output_malformed:{type(e).__name__}", repr(e)
 
-                for ch, (kind, info) in explore(guarded, diverged=lambda msg: (NOT_REPRODUCIBLE, msg)):
+                runs = [(None, ch_, r_) for ch_, r_ in explore(guarded, diverged=lambda msg: (NOT_REPRODUCIBLE, msg))]
+                if n == 3 and len(cfg) == 5:
+                    for dt in ("uint8", "int64"):
+                        XDTYPE[0] = dt
+                        try:
+                            runs += [(dt, ch_, r_) for ch_, r_ in explore(guarded, diverged=lambda msg: (NOT_REPRODUCIBLE, msg))]
+                        finally:
+                            XDTYPE[0] = None
+                for dt, ch, (kind, info) in runs:
                     p.evaluations += 1
                     if kind is not None:
                         p.violation(f"C11:{kind}|shapes={'differ' if cfg[2].startswith('differ') else 'equal'}{'|soft_labels' if len(cfg) > 5 else ''}|p={cfg[3]}"
+                                    f"{'|sample_dtype=' + dt if dt else ''}"
                                     f"|mode={'joint' if ('x' in mode.split() and 'class' in mode.split()) else 'single'}",
-                                    dict(cfg=cfg, i=i, mode=mode, choices=ch.choices), f"cfg={cfg} i={i} mode='{mode}': {kind}: {info}")
+                                    dict(cfg=cfg, i=i, mode=mode, choices=ch.choices, xdtype=dt), f"cfg={cfg} i={i} mode='{mode}' sample dtype {dt or 'float32'}: {kind}: {info}")
                     else:
                         p.observe((cfg, i, mode, info))
         seeded_agreement(cfg, p)
@@ -366,5 +383,9 @@ def replay(case):
         p = Partial()
         seeded_agreement(cfg, p)
         return None if not p.violations else "; ".join(m for _, m in p.violations.values())
-    kind, info = run_one(cfg, case["i"], case["mode"], Chooser(tuple(case["choices"])))
+    XDTYPE[0] = case.get("xdtype")
+    try:
+        kind, info = run_one(cfg, case["i"], case["mode"], Chooser(tuple(case["choices"])))
+    finally:
+        XDTYPE[0] = None
     return None if kind is None else f"{kind}: {info}"
